@@ -242,8 +242,7 @@ def run(prop, tier, seed, workdir, harness, driver):
                 continue
             cases.append(t)
         if b == 0:
-            adj = adjacency_cases()
-            cases = cases[:max(0, per - len(adj))] + adj
+            cases = cases + adjacency_cases()      # in addition to the random trees, never instead of them
         for fs, sig, e in FIXED_OUTSIDE_WINDOW:
             cases.append(Node(fs, fs, ["lf%de%d" % (sig, e)]))
         os.makedirs(os.path.join(BUILD, "src"), exist_ok=True)
